@@ -10,6 +10,9 @@ global size_of usize == 8;
 //@include prelude/ndtrack.rs
 //@include prelude/ndess.rs
 
+// loops are verified in the context of their function (facts about values bound before a loop need no restating in
+// its invariant: hoisting a sub-expression out of a loop must not break the proof)
+#[verifier::loop_isolation(false)]
 pub mod unit_ess {
     use vstd::prelude::*;
     use vstd::std_specs::iter::IteratorSpec;
